@@ -1033,17 +1033,32 @@ func (e *Engine) applyContract(st *State, fr *Frame, res ssa.Value, callee *ssa.
 				e.havocLoc(st, pre, loc, env)
 			}
 		}
+	default:
+		e.foreignOrFullHavoc(st, callee, "contract without frame: "+shortFn(callee))
+	}
+	// the callee may have allocated (allocation is not a write to existing memory)
+	{
 		na := e.fresh("A", "Int")
 		st.assume(fmt.Sprintf("(>= %s %s)", na, st.A.term()))
 		st.A = allocCtr{na, 0}
-	default:
-		e.foreignOrFullHavoc(st, callee, "contract without frame: "+shortFn(callee))
 	}
 	// results
 	sig := callee.Signature
 	var rs []Val
-	for i := 0; i < sig.Results().Len(); i++ {
-		rs = append(rs, e.freshVal(st, "r."+callee.Name(), sig.Results().At(i).Type()))
+	if con.has("stable") && sig.Results().Len() >= 1 {
+		// the result is a function of the arguments alone (e.g. the name of a file object)
+		e.stableMode = true
+		rv := e.pureResult(pre, "stable."+callee.String(), args, e.resultTypeOfSig(sig), true)
+		e.stableMode = false
+		if sig.Results().Len() == 1 {
+			rs = []Val{rv}
+		} else {
+			rs = rv.F
+		}
+	} else {
+		for i := 0; i < sig.Results().Len(); i++ {
+			rs = append(rs, e.freshVal(st, "r."+callee.Name(), sig.Results().At(i).Type()))
+		}
 	}
 	e.bindResults(env, sig, rs)
 	for _, c := range con.get("ensures") {
@@ -1061,6 +1076,10 @@ func (e *Engine) applyContract(st *State, fr *Frame, res ssa.Value, callee *ssa.
 	for _, c := range con.get("assume-ensures") {
 		st.assume(e.evalSpecBool(st, pre, c.Expr, env))
 	}
+	if con.Extern {
+		// an external function has no body to carry its ghost effect: it is applied here
+		e.applyGhostEffectsOld(st, pre, con, env)
+	}
 	if res != nil {
 		switch len(rs) {
 		case 0:
@@ -1069,6 +1088,29 @@ func (e *Engine) applyContract(st *State, fr *Frame, res ssa.Value, callee *ssa.
 		default:
 			e.bindResult(st, res, Val{K: KTuple, Ty: res.Type(), F: rs})
 		}
+	}
+	e.afterCallHooks(st, fr, shortFn(callee), args, rs, pos)
+}
+
+// afterCallHooks implements `aftercall CALLEE: expr` (an assertion on the state right after the call).
+func (e *Engine) afterCallHooks(st *State, fr *Frame, calleeName string, args, rs []Val, pos token.Pos) {
+	if e.con == nil || fr == nil || fr.fn != e.fn {
+		return
+	}
+	for _, c := range e.con.Clauses {
+		if c.Kind != "aftercall" || len(c.Args) == 0 || !calleeMatches(calleeName, c.Args[0]) {
+			continue
+		}
+		env := e.rootEnv(st, nil)
+		for i, a := range args {
+			env.vars[fmt.Sprintf("arg%d", i)] = a
+		}
+		for i, r := range rs {
+			env.vars[fmt.Sprintf("ret%d", i)] = r
+		}
+		g := e.evalSpecBool(st, e.entry, c.Expr, env)
+		name, where := e.siteName(fr, "after", pos, c.Args[0]+" "+c.Label)
+		e.oblige(st, name, "K5", c.Text, g, where, c.Props)
 	}
 }
 
@@ -1336,7 +1378,7 @@ func (e *Engine) pureResult(st *State, name string, args []Val, rt types.Type, d
 		}
 	}
 	hv := ""
-	if ref {
+	if ref && !e.stableMode {
 		strip := true
 		for _, t := range terms {
 			if strings.Contains(t, "|A!") {
@@ -1384,6 +1426,9 @@ func (e *Engine) pureResult(st *State, name string, args []Val, rt types.Type, d
 func (e *Engine) heapVersion(st *State, strip bool) int {
 	var sb strings.Builder
 	for _, k := range sortedKeys(st.heap) {
+		if isGhostKey(k) {
+			continue
+		}
 		t := st.heap[k]
 		if strip {
 			t = stripFreshStores(t)
@@ -1527,4 +1572,12 @@ func (e *Engine) variantCheck(st *State, fr *Frame, callee *ssa.Function, con *C
 	}
 	name, where := e.siteName(fr, "variant", pos, shortFn(callee))
 	e.oblige(st, name, "K4", "recursion measure ("+rd[0].Text+", rank) decreases at the call and stays >= 0", goal, where, rd[0].Props)
+}
+
+
+func (e *Engine) resultTypeOfSig(sig *types.Signature) types.Type {
+	if sig.Results().Len() == 1 {
+		return sig.Results().At(0).Type()
+	}
+	return sig.Results()
 }
